@@ -11,6 +11,11 @@
 //!                    M and S are evaluated on the *original* program.
 //!   `n <P> | <WS>`   as `p`, but every word is run with
 //!                    `run_with_options(.., RunOptions { disable_left_boundary: true, .. })`.
+//!   `t <P> | <n> c*` the program is installed in a font (`File::replace_lig_kern_program`, the four
+//!                    space parameters set), compiled (`compile_from_tfm_file`) and registered
+//!                    with the real `boxworks_text::TextPreprocessorImpl`; the text (char codes,
+//!                    32 = space) goes through `add_text`; the horizontal list is cut at the
+//!                    glue items and every word's segment is compared with M and S.
 //!   `f <path>`       a corpus font (path relative to /repo): real bytes through
 //!                    `tfm::File::deserialize` and `CompiledProgram::compile_from_tfm_file`;
 //!                    words = every ruled pair, and every ruled pair followed by a third letter.
@@ -330,7 +335,7 @@ impl C05 {
         penc: &str,
         marker: &str,
         no_lb: bool,
-    ) {
+    ) -> Option<(bool, String)> {
         for f in features(model_prog) {
             out.tag(f);
         }
@@ -428,7 +433,7 @@ impl C05 {
                 Ok(i) => i,
                 Err(p) => {
                     out.fail(Kind::ImplPanic, stream, format!("panic {}", strip_msg(&p)), format!("run({s:?}) panicked: {p}"));
-                    return;
+                    return None;
                 }
             };
             if items.len() >= MAX_ITEMS {
@@ -440,7 +445,7 @@ impl C05 {
                     "run: iterator does not terminate",
                     format!("run({s:?}) produced more than {MAX_ITEMS} items"),
                 );
-                return;
+                return None;
             }
             let e = enc_items(&items);
             req.push_str(&format!(" | {} {} | {}", w.len(), join(w), join(&e)));
@@ -469,15 +474,39 @@ impl C05 {
         }
         out.tags.sort();
         out.tags.dedup();
+        let acyclic = m_loop.is_empty();
+        self.judge(stream, "run", penc, words, &real, acyclic, ph, no_lb, drv, out);
+        Some((acyclic, ph.to_string()))
+    }
+
+    /// Ask Lean about the real output of every word (`real[k]` = encoded items of `words[k]`)
+    /// and report: items vs M, glyph sequence vs `interp`, originals vs the word.
+    #[allow(clippy::too_many_arguments)]
+    fn judge(
+        &mut self,
+        stream: &str,
+        what: &str,
+        penc: &str,
+        words: &[Vec<i64>],
+        real: &[Vec<i64>],
+        acyclic: bool,
+        ph: &str,
+        no_lb: bool,
+        drv: &mut Driver,
+        out: &mut CaseOutcome,
+    ) {
         if words.is_empty() {
             return;
+        }
+        let mut req = format!("{} {penc}", if no_lb { "runsn" } else { "runs" });
+        for (w, e) in words.iter().zip(real) {
+            req.push_str(&format!(" | {} {} | {}", w.len(), join(w), join(e)));
         }
         let reply = drv.ask(&req);
         let verdicts: Vec<&str> = reply.split_ascii_whitespace().collect();
         if verdicts.len() != words.len() {
             panic!("driver reply malformed ({} verdicts for {} words): {}", verdicts.len(), words.len(), trunc(&reply));
         }
-        let acyclic = m_loop.is_empty();
         let mut reported = [false; 4];
         for (k, v) in verdicts.iter().enumerate() {
             let code: i64 = v.parse().unwrap_or_else(|_| panic!("bad verdict {v}"));
@@ -496,7 +525,7 @@ impl C05 {
                 out.fail(
                     Kind::ImplVsModel,
                     stream,
-                    format!("run: items differ{ph}"),
+                    format!("{what}: items differ{ph}"),
                     format!("word {:?}\nimpl items: {}\ndriver (mgs | model items | spec glyphs): {d}", word_string(w), join(&real[k])),
                 );
             }
@@ -508,13 +537,13 @@ impl C05 {
                 out.fail(
                     Kind::ImplVsSpec,
                     stream,
-                    format!("run: glyph sequence differs from direct interpretation{}{ph}", if acyclic { "" } else { " (program has loops)" }),
+                    format!("{what}: glyph sequence differs from direct interpretation{}{ph}", if acyclic { "" } else { " (program has loops)" }),
                     format!("word {:?}\nimpl items: {}\ndriver (mgs | model items | spec glyphs): {d}", word_string(w), join(&real[k])),
                 );
             }
             if g == 2 && acyclic && !reported[2] {
                 reported[2] = true;
-                out.fail(Kind::ModelVsSpec, stream, "run: interp out of fuel on an acyclic program", format!("word {:?}", word_string(w)));
+                out.fail(Kind::ModelVsSpec, stream, format!("{what}: interp out of fuel on an acyclic program"), format!("word {:?}", word_string(w)));
             }
             if s != 1 && !reported[3] {
                 reported[3] = true;
@@ -522,11 +551,154 @@ impl C05 {
                 out.fail(
                     Kind::ImplVsSpec,
                     stream,
-                    format!("run: originals do not spell the word{ph}"),
+                    format!("{what}: originals do not spell the word{ph}"),
                     format!("word {:?}\nimpl items: {}\ndriver (mgs | model items | spec glyphs): {d}", word_string(w), join(&real[k])),
                 );
             }
         }
+    }
+
+    /// The call site that runs compiled programs over words: the real
+    /// `boxworks_text::TextPreprocessorImpl` (`add_text` → `add_word` / `add_space`), with the
+    /// font registered from `file` and `cp`. The horizontal list is cut at the glue items
+    /// into one segment per word; every segment must be what `run(word)` is specified to be
+    /// (M: items; S: glyph sequence of `interp` on `[LB] w [RB?]`, spelling).
+    #[allow(clippy::too_many_arguments)]
+    fn text_check(
+        &mut self,
+        stream: &str,
+        penc: &str,
+        file: &tfm::File,
+        cp: &CompiledProgram,
+        texts: &[String],
+        acyclic: bool,
+        ph: &str,
+        drv: &mut Driver,
+        out: &mut CaseOutcome,
+    ) {
+        use boxworks::ds;
+        use boxworks::TextPreprocessor;
+        let tp = caught(|| {
+            let mut tp = boxworks_text::TextPreprocessorImpl::new(boxworks_text::Params::plain_tex_defaults());
+            tp.register_font(0, file, cp.clone());
+            tp
+        });
+        let mut tp = match tp {
+            Ok(tp) => tp,
+            Err(_) => {
+                // register_font unwraps the SPACE/STRETCH/SHRINK/EXTRASPACE parameters
+                out.tag("text:skipped(font lacks the space parameters)");
+                return;
+            }
+        };
+        for text in texts {
+            let mut list: Vec<ds::Horizontal> = vec![];
+            if let Err(p) = caught(|| tp.add_text(text, &mut list)) {
+                out.fail(Kind::ImplPanic, stream, format!("panic {}", strip_msg(&p)), format!("add_text({text:?}) panicked: {p}"));
+                return;
+            }
+            let words: Vec<Vec<i64>> = text.split_ascii_whitespace().map(|w| w.chars().map(|c| c as i64).collect()).collect();
+            // cut at glue
+            let mut segs: Vec<Vec<i64>> = vec![vec![]];
+            let mut counts: Vec<i64> = vec![0];
+            let mut prev_hyphen = false;
+            let mut bad: Option<String> = None;
+            for h in &list {
+                match h {
+                    ds::Horizontal::Glue(_) => {
+                        segs.push(vec![]);
+                        counts.push(0);
+                        prev_hyphen = false;
+                        continue;
+                    }
+                    ds::Horizontal::Char(c) => {
+                        segs.last_mut().unwrap().extend([0, c.char as i64]);
+                        *counts.last_mut().unwrap() += 1;
+                        prev_hyphen = c.char == '-';
+                        if c.font != 0 {
+                            bad = Some("character in another font".into());
+                        }
+                    }
+                    ds::Horizontal::Kern(k) => {
+                        out.tag("text:kern");
+                        segs.last_mut().unwrap().extend([1, k.width.0 as i64]);
+                        *counts.last_mut().unwrap() += 1;
+                        prev_hyphen = false;
+                        if k.kind != ds::KernKind::Normal {
+                            bad = Some("kern that is not a font kern".into());
+                        }
+                    }
+                    ds::Horizontal::Ligature(l) => {
+                        let o: Vec<i64> = l.original_chars.chars().map(|c| c as i64).collect();
+                        let seg = segs.last_mut().unwrap();
+                        seg.extend([2, l.char as i64, l.includes_left_boundary as i64, l.includes_right_boundary as i64, o.len() as i64]);
+                        seg.extend(&o);
+                        *counts.last_mut().unwrap() += 1;
+                        prev_hyphen = l.original_chars.ends_with('-');
+                        out.tag("text:ligature");
+                        if l.includes_left_boundary {
+                            out.tag("text:ligature-with-left-boundary");
+                        }
+                        if l.includes_right_boundary {
+                            out.tag("text:ligature-with-right-boundary");
+                        }
+                    }
+                    ds::Horizontal::Discretionary(_) if prev_hyphen => {
+                        // TeX.2021.1035: an empty discretionary after the hyphen char
+                        prev_hyphen = false;
+                        out.tag("text:discretionary-after-hyphen");
+                    }
+                    other => bad = Some(format!("unexpected item {other:?}")),
+                }
+            }
+            if let Some(b) = bad {
+                out.fail(Kind::ImplVsSpec, stream, "text: item that no lig/kern program produces", format!("text {text:?}: {b}"));
+                continue;
+            }
+            let leading = text.chars().next().map(|c| c.is_ascii_whitespace()).unwrap_or(false);
+            if leading && !words.is_empty() {
+                if !segs[0].is_empty() {
+                    out.fail(Kind::ImplVsSpec, stream, "text: word segmentation differs", format!("text {text:?}: material before the first space"));
+                    continue;
+                }
+                segs.remove(0);
+                counts.remove(0);
+            }
+            if words.is_empty() {
+                segs.retain(|s| !s.is_empty());
+                counts.clear();
+            }
+            if segs.len() != words.len() {
+                out.fail(
+                    Kind::ImplVsSpec,
+                    stream,
+                    "text: word segmentation differs",
+                    format!("text {text:?}: {} words, {} glue-separated segments", words.len(), segs.len()),
+                );
+                continue;
+            }
+            let real: Vec<Vec<i64>> = segs
+                .iter()
+                .zip(&counts)
+                .map(|(s, n)| {
+                    let mut v = vec![*n];
+                    v.extend(s);
+                    v
+                })
+                .collect();
+            for w in &words {
+                out.tag(format!("text:word-len={}", w.len().min(4)));
+            }
+            if leading {
+                out.tag("text:leading-space");
+            }
+            if text.ends_with(' ') {
+                out.tag("text:trailing-space");
+            }
+            self.judge(stream, "text", penc, &words, &real, acyclic, ph, false, drv, out);
+        }
+        out.tags.sort();
+        out.tags.dedup();
     }
 }
 
@@ -652,6 +824,46 @@ fn random_words(rng: &mut Rng, p: &Prog, n: usize, maxlen: u64) -> Vec<Vec<i64>>
         .collect()
 }
 
+/// A program that `replace_lig_kern_program` is specified for: no redirect words of its own,
+/// kerns by value, entry points and SKIPs inside the program.
+fn make_valid(p: &mut Prog) {
+    let n = p.instrs.len() as i64;
+    for e in p.entries.iter_mut() {
+        e.1 %= n;
+    }
+    for (at, i) in p.instrs.iter_mut().enumerate() {
+        if i[2] == 3 || i[2] == 1 {
+            i[2] = 0;
+            i[3] = 0;
+        }
+        if i[0] >= 0 && at as i64 + i[0] + 1 >= n {
+            i[0] = -1;
+        }
+    }
+    p.kerns.clear();
+}
+
+/// Words joined by one or two spaces, sometimes with leading / trailing spaces.
+fn text_of(rng: &mut Rng, ws: &[Vec<i64>]) -> Vec<i64> {
+    let mut t = vec![];
+    if rng.chance(1, 4) {
+        t.push(32);
+    }
+    for (i, w) in ws.iter().enumerate() {
+        if i > 0 {
+            t.push(32);
+            if rng.chance(1, 5) {
+                t.push(32);
+            }
+        }
+        t.extend(w);
+    }
+    if rng.chance(1, 4) {
+        t.push(32);
+    }
+    t
+}
+
 fn case_of(kind: &str, p: &Prog, ws: &WordSet) -> String {
     format!("{kind} {} | {}", join(&p.enc()), ws.enc())
 }
@@ -671,6 +883,7 @@ impl Property for C05 {
         "p: every program over {a,b,c} with one rule (12 pairs incl. left boundary x (8 ligature forms x 3 letters + kern)) x right boundary none/'a', each on every word of length 1..4 (exhaustive); \
          two- and three-rule programs over the same space (sampled in quick, two-rule exhaustive on words <= 3 in thorough); random programs (<= 12 instructions, alphabet 2..5, SKIP n / STOP chains, shared and out-of-range entry points, left-boundary entry, right boundary char inside or outside the alphabet, Kern / KernAtIndex incl. missing index, rare redirect words) on random words <= 10 (incl. foreign and non-u8 chars); \
          n: random programs and a third of the one-rule programs run with disable_left_boundary; \
+         t: every one-rule program x right boundary none/'a' on a text of all 12 words of one and two letters, and random valid programs on random texts (half the words one letter; double, leading, trailing spaces), through the real boxworks_text::TextPreprocessorImpl::add_text; every corpus font also through add_text on its own boundary pairs as one-letter words; \
          k: random programs through the real replace_lig_kern_program/compile_from_tfm_file (pack_entrypoints, unpack_entrypoint), a quarter padded to > 255 instructions; f: every corpus .tfm through deserialize + compile_from_tfm_file on every ruled pair and ruled pair + third letter. \
          Non-trivial = the program has at least one rule that applies to some word of the case (some output item is a kern or ligature, or a pair loops); distinct = distinct case string."
             .into()
@@ -756,6 +969,38 @@ impl Property for C05 {
                 v.push(case_of("n", &prog_of_rules(&[*r], A), &WordSet::All(3, abc.clone())));
             }
         }
+        // t: the boxworks-text call site. Every one-rule program (boundary rules included) on
+        // a text of all words of one and two letters; random valid programs on random texts
+        // with many one-letter words, double spaces, leading and trailing spaces.
+        let mut rt = rng.fork();
+        let all12: Vec<Vec<i64>> = WordSet::All(2, abc.clone()).words();
+        for r in &rules {
+            for rb in [-1, A] {
+                let mut ws = all12.clone();
+                // rotate so that every word is first / last in some case
+                let k = rt.below(ws.len() as u64) as usize;
+                ws.rotate_left(k);
+                let text = text_of(&mut rt, &ws);
+                v.push(format!("t {} | {} {}", join(&prog_of_rules(&[*r], rb).enc()), text.len(), join(&text)));
+            }
+        }
+        for _ in 0..nr / 3 {
+            let mut p = random_prog(&mut rt);
+            make_valid(&mut p);
+            let n = 1 + rt.below(8) as usize;
+            let mut ws = vec![];
+            for _ in 0..n {
+                let len = *rt.pick(&[1u64, 1, 1, 2, 2, 3, 4, 6]);
+                ws.extend(random_words(&mut rt, &p, 1, 1).into_iter().map(|mut w| {
+                    while (w.len() as u64) < len {
+                        w.extend(random_words(&mut rt, &p, 1, 1).remove(0));
+                    }
+                    w
+                }));
+            }
+            let text = text_of(&mut rt, &ws);
+            v.push(format!("t {} | {} {}", join(&p.enc()), text.len(), join(&text)));
+        }
         let mut rk = rng.fork();
         for _ in 0..nk {
             let mut p = random_prog(&mut rk);
@@ -839,7 +1084,9 @@ impl Property for C05 {
                         Ok((cp, errs, n_redirect)) => {
                             out.tag(format!("pack:redirect-words={}", n_redirect.min(3)));
                             match prog.enc_scaled(ds) {
-                                Ok(e) => self.compare("pack", &prog, &cp, &errs, &words, drv, &mut out, &join(&e), marker, cmd == "n"),
+                                Ok(e) => {
+                                    self.compare("pack", &prog, &cp, &errs, &words, drv, &mut out, &join(&e), marker, cmd == "n");
+                                }
                                 Err(_) => out.tag("skipped:to_scaled-panic(C17)"),
                             }
                         }
@@ -852,12 +1099,47 @@ impl Property for C05 {
                     match compiled {
                         Err(p) => out.fail(Kind::ImplPanic, "compile", format!("panic {}", strip_msg(&p)), format!("compile panicked: {p}")),
                         Ok((cp, errs)) => match prog.enc_scaled(ds) {
-                            Ok(e) => self.compare(if cmd == "n" { "no-left-boundary" } else { "prog" }, &prog, &cp, &errs, &words, drv, &mut out, &join(&e), marker, cmd == "n"),
+                            Ok(e) => {
+                                self.compare(if cmd == "n" { "no-left-boundary" } else { "prog" }, &prog, &cp, &errs, &words, drv, &mut out, &join(&e), marker, cmd == "n");
+                            }
                             Err(_) => out.tag("skipped:to_scaled-panic(C17)"),
                         },
                     }
                 }
                 out.nontrivial = out.tags.iter().any(|t| t.starts_with("item:") || t == "loop:some-pair-loops");
+                out
+            }
+            "t" => {
+                out.tag("stream:text-preprocessor");
+                let parts: Vec<&str> = rest.split('|').collect();
+                let prog = Prog::dec(&parse_i64s(parts[0]));
+                let tv = parse_i64s(parts[1]);
+                let text: String = word_string(&tv[1..1 + tv[0] as usize]);
+                let (real, entries, _) = prog.to_real();
+                let ds = design_size();
+                // a font built the way the `k` stream builds it, with the four space parameters
+                // that `register_font` reads
+                let r = caught(|| {
+                    let mut f = tfm::File::default();
+                    f.header.design_size = ds;
+                    f.params = vec![FixWord::ZERO, FixWord(349526), FixWord(174763), FixWord(116509), FixWord(451508), FixWord::ONE, FixWord(116509)];
+                    f.replace_lig_kern_program(real.clone(), entries.clone());
+                    let (cp, errs) = CompiledProgram::compile_from_tfm_file(&mut f);
+                    (f, cp, errs)
+                });
+                match r {
+                    Err(p) => out.fail(Kind::ImplPanic, "text", format!("panic {}", strip_msg(&p)), format!("replace_lig_kern_program/compile_from_tfm_file panicked: {p}")),
+                    Ok((f, cp, errs)) => match prog.enc_scaled(ds) {
+                        Ok(e) => {
+                            let penc = join(&e);
+                            if let Some((acyclic, ph)) = self.compare("text", &prog, &cp, &errs, &[], drv, &mut out, &penc, "", false) {
+                                self.text_check("text", &penc, &f, &cp, &[text], acyclic, &ph, drv, &mut out);
+                            }
+                        }
+                        Err(_) => out.tag("skipped:to_scaled-panic(C17)"),
+                    },
+                }
+                out.nontrivial = out.tags.iter().any(|t| t == "text:ligature" || t == "text:kern" || t == "loop:some-pair-loops");
                 out
             }
             "f" => {
@@ -912,7 +1194,40 @@ impl Property for C05 {
                             }
                         }
                         out.tag(format!("font:ruled-pairs~{}", bucket(tab.pairs.len())));
-                        self.compare("font", &q, &cp, &errs, &words, drv, &mut out, &join(&q.enc()), "", false);
+                        let penc = join(&q.enc());
+                        if let Some((acyclic, ph)) = self.compare("font", &q, &cp, &errs, &words, drv, &mut out, &penc, "", false) {
+                            // the same font through the boxworks-text call site: texts made of the
+                            // font's own ruled pairs as words of one, two and three characters
+                            // (a one-character word is the only way to meet the pairs
+                            // (left boundary, c) and (c, right boundary) together)
+                            let ok = |w: &&Vec<i64>| w.iter().all(|c| !(*c as u8 as char).is_ascii_whitespace() && *c < 256);
+                            let mut ws: Vec<Vec<i64>> = vec![];
+                            for ((l, r), _) in tab.pairs.iter() {
+                                if *l < 0 {
+                                    ws.push(vec![*r]);
+                                } else if *r == q.rb {
+                                    ws.push(vec![*l]);
+                                }
+                            }
+                            ws.truncate(200);
+                            ws.extend(words.iter().take(400).cloned());
+                            let ws: Vec<&Vec<i64>> = ws.iter().filter(ok).collect();
+                            let mut texts: Vec<String> = vec![];
+                            for (i, chunk) in ws.chunks(25).enumerate() {
+                                let body = chunk.iter().map(|w| word_string(w)).collect::<Vec<_>>().join(if i % 2 == 0 { " " } else { "  " });
+                                texts.push(match i % 4 {
+                                    0 => body,
+                                    1 => format!(" {body}"),
+                                    2 => format!("{body} "),
+                                    _ => format!("  {body}  "),
+                                });
+                            }
+                            // every such word also alone: the whole text is one word
+                            for w in ws.iter().take(40) {
+                                texts.push(word_string(w));
+                            }
+                            self.text_check("font-text", &penc, &f, &cp, &texts, acyclic, &ph, drv, &mut out);
+                        }
                     }
                 }
                 out.nontrivial = out.tags.iter().any(|t| t.starts_with("item:") || t == "loop:some-pair-loops");
@@ -925,6 +1240,49 @@ impl Property for C05 {
     fn shrink(&self, case: &str) -> Vec<String> {
         let (cmd, rest) = case.split_once(' ').unwrap_or((case, ""));
         let mut c = vec![];
+        if cmd == "t" {
+            let parts: Vec<&str> = rest.split('|').collect();
+            let prog = Prog::dec(&parse_i64s(parts[0]));
+            let tv = parse_i64s(parts[1]);
+            let text = tv[1..1 + tv[0] as usize].to_vec();
+            let mk = |p: &Prog, t: &[i64]| format!("t {} | {} {}", join(&p.enc()), t.len(), join(t));
+            let words: Vec<Vec<i64>> = text.split(|c| *c == 32).filter(|w| !w.is_empty()).map(|w| w.to_vec()).collect();
+            if words.len() > 1 {
+                for w in &words {
+                    c.push(mk(&prog, w));
+                }
+            }
+            for i in 0..text.len() {
+                let mut t = text.clone();
+                t.remove(i);
+                if !t.is_empty() {
+                    c.push(mk(&prog, &t));
+                }
+            }
+            for i in 0..prog.entries.len() {
+                let mut q = prog.clone();
+                q.entries.remove(i);
+                c.push(mk(&q, &text));
+            }
+            if prog.lb >= 0 {
+                let mut q = prog.clone();
+                q.lb = -1;
+                c.push(mk(&q, &text));
+            }
+            if prog.rb >= 0 {
+                let mut q = prog.clone();
+                q.rb = -1;
+                c.push(mk(&q, &text));
+            }
+            for i in 0..prog.instrs.len() {
+                if prog.instrs[i][1..] != [255, 0, 0, 0] {
+                    let mut q = prog.clone();
+                    q.instrs[i] = [q.instrs[i][0], 255, 0, 0, 0];
+                    c.push(mk(&q, &text));
+                }
+            }
+            return c;
+        }
         if cmd != "p" && cmd != "k" && cmd != "n" {
             return c;
         }
